@@ -20,7 +20,7 @@
     - the window that remains (Props/C18.v, [C18_foreign_writer_refuted]): between "site folder
       listed empty + Stat" and "Delete(site folder)" another instance can store a fresh
       certificate into that folder; Delete is recursive and removes it. *)
-From CM Require Import Lib.Str Lib.CleanSyntax Gen.Consts Clean.Model Clean.Prog Clean.Proofs Clean.Concurrent.
+From CM Require Import Lib.Str Lib.CleanSyntax Gen.Consts Clean.Model Clean.Prog Clean.Proofs Clean.Concurrent Clean.Effective.
 From Coq Require Import Lia.
 Open Scope Z_scope.
 
@@ -503,3 +503,248 @@ Section Frame.
     cbn [snd] in *. unfold do_unlock. cbn [sto logged]. rewrite R. exact F.
   Qed.
 End Frame.
+
+(** * Frame for the assets of a live certificate: if no other actor touches X.crt (an unexpired
+    certificate), the asset in question, or a key above them, the cleaner leaves the asset alone --
+    whatever the others do elsewhere (e.g. in other site folders, in ocsp/, to accounts) *)
+Lemma covers_trans x y z : covers x y = true -> covers y z = true -> covers x z = true.
+Proof.
+  unfold covers. intros H1 H2. apply orb_true_iff in H1. apply orb_true_iff in H2. apply orb_true_iff.
+  destruct H1 as [H1|H1]; [apply seqb_eq in H1; subst y; exact H2|].
+  destruct H2 as [H2|H2]; [apply seqb_eq in H2; subst z; right; exact H1|].
+  right. apply under_spec in H1. apply under_spec in H2. destruct H1 as [r1 ->]. destruct H2 as [r2 ->].
+  apply under_spec. exists (r1 ++ c_sl :: r2). rewrite <- app_assoc. reflexivity.
+Qed.
+
+Lemma site_folder_nsep x : site_folder x -> nsep x = 2%nat.
+Proof.
+  intros [ik [[c1 [-> H1]] [c2 [-> H2]]]].
+  replace ((spec_certs ++ c_sl :: c1) ++ c_sl :: c2) with (spec_certs ++ [c_sl] ++ c1 ++ [c_sl] ++ c2)
+    by (rewrite <- !app_assoc; reflexivity).
+  rewrite !nsep_app, (nsep_nomem _ H1), (nsep_nomem _ H2). reflexivity.
+Qed.
+Lemma folder_child x q : site_folder x -> nsep q = 3%nat -> covers x q = true -> child x q.
+Proof.
+  intros Hx Hq C. pose proof (site_folder_nsep x Hx) as Nx. unfold covers in C. apply orb_true_iff in C.
+  destruct C as [C|C]; [apply seqb_eq in C; subst q; lia|].
+  apply under_spec in C. destruct C as [r ->]. exists r. split; [reflexivity|].
+  apply nsep_zero_nomem. rewrite nsep_app in Hq. cbn [nsep] in Hq. rewrite N.eqb_refl in Hq. lia.
+Qed.
+
+Section LiveFrame.
+  Variables (e : env) (clk : nat -> Z) (fs : list (nat * fop)) (o : opts) (s0 : store).
+  Variables (base suf : key) (v : Z) (c : cls).
+  Local Notation a := (base ++ spec_ext_crt).
+  Local Notation k := (base ++ suf).
+  Hypotheses (Ha : site_assetb a = true) (Hs : In suf asset_exts)
+             (Hf : lookup s0 a = Some (File v c))
+             (Hlive : forall i, spec_expired (clk i) (grace o) c = false).
+  (** the foreign operation acts on q or on a key above it *)
+  Definition fkey (f : fop) : key := match f with FPut k' _ => k' | FDel k' => k' end.
+  Hypothesis Hfs : forall i f, In (i, f) fs -> covers (fkey f) a = false /\ covers (fkey f) k = false.
+
+  Definition prot (q : key) : Prop := q = k \/ covers q a = true.
+
+  Lemma nsep_k : nsep k = 3%nat.
+  Proof.
+    rewrite nsep_app, (ext_nsep _ Hs). pose proof (site_assetb_nsep a Ha) as N.
+    rewrite nsep_app in N. cbn in N. lia.
+  Qed.
+  Lemma k_prefix : has_prefix certs_pfx k = true.
+  Proof. exact (asset_key_prefix base suf Ha). Qed.
+  Lemma a_prefix : has_prefix certs_pfx a = true.
+  Proof. apply site_assetb_spec in Ha. destruct Ha as [r [E _]]. apply has_prefix_spec. eauto. Qed.
+
+  Lemma apply_at_prot l i : (forall j f, In (j, f) l -> covers (fkey f) a = false /\ covers (fkey f) k = false) ->
+    forall s q, prot q -> lookup (apply_at l i s) q = lookup s q.
+  Proof.
+    induction l as [|[j f] r IH]; intros Hl s q Hq; [reflexivity|]. cbn [apply_at].
+    rewrite IH by (first [exact Hq | intros j' f' H; apply (Hl j' f'); right; exact H]).
+    destruct (Nat.eqb j i); [|reflexivity].
+    destruct (Hl j f (or_introl eq_refl)) as [T1 T2].
+    assert (T : covers (fkey f) q = false).
+    { destruct Hq as [->|Hq]; [exact T2|]. destruct (covers (fkey f) q) eqn:C; [|reflexivity].
+      rewrite (covers_trans _ _ _ C Hq) in T1. discriminate. }
+    destruct f as [k' n|k']; cbn [fapply fkey] in *.
+    - rewrite lookup_put. unfold covers in T. apply orb_false_iff in T. rewrite (proj1 T). reflexivity.
+    - rewrite lookup_remove, T. reflexivity.
+  Qed.
+
+  (** k and X.crt lie in the same folder *)
+  Lemma same_folder p : child p k -> covers p a = true.
+  Proof.
+    intros [ck [Ek Hck]].
+    assert (Hb : exists b', base = p ++ c_sl :: b').
+    { assert (Ek' : base ++ suf = (p ++ [c_sl]) ++ ck) by (rewrite <- app_assoc; exact Ek).
+      destruct (app_eq_app _ _ _ _ Ek') as [l [[E1 E2]|[E1 E2]]].
+      - exists l. rewrite E1, <- app_assoc. reflexivity.
+      - destruct l as [|z l0] using rev_ind.
+        + exists []. rewrite app_nil_r in E1. exact (eq_sym E1).
+        + exfalso. rewrite app_assoc in E1. apply app_inj_tail in E1. destruct E1 as [_ Ez]. subst z.
+          pose proof (nsep_zero_nomem _ (ext_nsep _ Hs)) as Ns. rewrite E2, !mem_app in Ns. cbn in Ns.
+          rewrite orb_true_r in Ns. discriminate. }
+    destruct Hb as [b' ->]. unfold covers. apply orb_true_iff. right. apply under_spec.
+    exists (b' ++ spec_ext_crt). rewrite <- app_assoc. reflexivity.
+  Qed.
+
+  (** what the history must say for the argument: it reflects the storage and the clock *)
+  Definition Hsound (h : hist) : Prop :=
+    honest h /\
+    (forall v' c', In (ALoad a, XLoad (LOk v' c')) h -> c' = c) /\
+    (forall t, In (ANow, XTime t) h -> exists i, t = clk i) /\
+    (forall p ks q, In (AList p, XList (Some ks)) h -> (q = a \/ (q = k /\ lookup s0 k <> None)) -> child p q ->
+       (forall v'' c'', lookup s0 p <> Some (File v'' c'')) -> In q ks) /\
+    (forall p, In (AStat p, XStat StatDir) h -> covers p a = true -> forall v'' c'', lookup s0 p <> Some (File v'' c'')).
+
+  (** a warranted Delete covers neither X.crt nor (unless it does not exist anyway) the asset *)
+  Lemma warranted_spares h x : Hsound h -> warranted o h x ->
+    covers x a = false /\ (covers x k = false \/ lookup s0 k = None).
+  Proof.
+    intros (Hh & Hld & Hnw & Hls & Hst) W.
+    destruct consts_ok as (Ec & Et & Er & Eg & _ & _ & _ & _ & Epc & Epo).
+    destruct W as [c' t _ L _ _ _|ik sk a' c' t _ L1 L2 L3 Ext Rd Nw Xp Hin|ik h' _ L1 L2 Eh].
+    - (* a staple: another namespace *)
+      assert (P : has_prefix ocsp_pfx x = true).
+      { rewrite Epo in L. destruct (listed_child _ _ _ Hh L) as [cx [-> _]]. apply has_prefix_spec. exists cx.
+        unfold ocsp_pfx. rewrite <- app_assoc. reflexivity. }
+      split; [|left].
+      + destruct (covers x a) eqn:C; [|reflexivity]. exfalso. exact (pfx_disjoint _ (covers_prefix _ _ _ P C) a_prefix).
+      + destruct (covers x k) eqn:C; [|reflexivity]. exfalso. exact (pfx_disjoint _ (covers_prefix _ _ _ P C) k_prefix).
+    - (* the assets of a certificate X'.crt read as expired: X' is not X *)
+      assert (Sa' : site_assetb a' = true).
+      { apply (site_asset_shape sk a'); [|exact (listed_child _ _ _ Hh L3)].
+        exists ik. split; [rewrite <- Epc; exact (listed_child _ _ _ Hh L1) | exact (listed_child _ _ _ Hh L2)]. }
+      rewrite Ec in Ext. unfold related in Hin. rewrite Et, Er in Hin.
+      assert (Xs : spec_expired t (grace o) c' = true).
+      { unfold expired_cert in Xp. unfold spec_expired. destruct (as_cert c'); [|discriminate]. rewrite Eg, cmp_ge_spec in Xp. exact Xp. }
+      assert (Key : forall suf', In suf' asset_exts -> covers x (base ++ suf') = true -> False).
+      { intros suf' Hs' C.
+        assert (J : j_cert t (grace o) [(a', File 0 c')] (base ++ suf') = true).
+        { unfold j_cert. cbn [map fst existsb]. rewrite orb_false_r. unfold j_cert_by. rewrite Sa', Ext.
+          assert (B : (if covers a' (base ++ suf') then true
+                       else if covers (trim_suffix spec_ext_crt a' ++ spec_ext_key) (base ++ suf') then true
+                            else covers (trim_suffix spec_ext_crt a' ++ spec_ext_json) (base ++ suf')) = true).
+          { destruct Hin as [<-|[<-|[<-|[]]]]; rewrite C.
+            - reflexivity.
+            - destruct (covers a' (base ++ suf')); reflexivity.
+            - destruct (covers a' (base ++ suf')); [reflexivity|].
+              destruct (covers (trim_suffix spec_ext_crt a' ++ spec_ext_key) (base ++ suf')); reflexivity. }
+          rewrite B. unfold file. cbn [lookup]. rewrite seqb_refl. exact Xs. }
+        pose proof (j_cert_asset _ _ _ _ _ Ha Hs' J) as M. unfold file in M. cbn [lookup] in M.
+        destruct (seqb a' a) eqn:E; [|discriminate]. apply seqb_eq in E. subst a'.
+        destruct Rd as [v' Rd]. rewrite (Hld v' c' Rd) in Xs.
+        destruct (Hnw t Nw) as [i ->]. rewrite Hlive in Xs. discriminate. }
+      split; [|left].
+      + destruct (covers x a) eqn:C; [|reflexivity]. exfalso. apply (Key spec_ext_crt); [left; reflexivity | exact C].
+      + destruct (covers x k) eqn:C; [|reflexivity]. exfalso. exact (Key suf Hs C).
+    - (* a site folder listed empty and Stat'ed non-terminal: X.crt would have been listed *)
+      assert (Sf : site_folder x).
+      { exists ik. split; [rewrite <- Epc; exact (listed_child _ _ _ Hh L1) | exact (listed_child _ _ _ Hh L2)]. }
+      assert (InS : In (AStat x, XStat StatDir) h) by (rewrite Eh; left; reflexivity).
+      assert (InL : In (AList x, XList (Some [])) h) by (rewrite Eh; right; left; reflexivity).
+      assert (NoA : covers x a = false).
+      { destruct (covers x a) eqn:C; [|reflexivity]. exfalso.
+        pose proof (folder_child x a Sf (site_assetb_nsep a Ha) C) as Ch.
+        exact (Hls x [] a InL (or_introl eq_refl) Ch (Hst x InS C)). }
+      split; [exact NoA|].
+      destruct (covers x k) eqn:C; [|left; reflexivity]. right.
+      destruct (lookup s0 k) as [n|] eqn:Lk; [|reflexivity]. exfalso.
+      pose proof (folder_child x k Sf nsep_k C) as Ch.
+      (* x is the folder of k, hence of a: both are base ++ ext below the same last slash *)
+      pose proof (same_folder x Ch) as Ca.
+      rewrite Ca in NoA. discriminate.
+  Qed.
+
+  Definition Ilive (s : st) : Prop := forall q, prot q -> lookup (sto s) q = lookup s0 q.
+
+  Lemma prot_a : prot a.
+  Proof. right. unfold covers. rewrite seqb_refl. reflexivity. Qed.
+  Lemma prot_not_record q : prot q -> seqb spec_last_clean q = false.
+  Proof.
+    intros Hq. destruct (seqb spec_last_clean q) eqn:E; [|reflexivity]. exfalso. apply seqb_eq in E. subst q.
+    destruct Hq as [E|C].
+    - pose proof k_prefix as P. rewrite <- E in P. vm_compute in P. discriminate.
+    - pose proof (covers_prefix (spec_last_clean) spec_last_clean a) as X.
+      pose proof a_prefix as P. apply has_prefix_spec in P. destruct P as [r Er].
+      unfold covers in C. apply orb_true_iff in C. destruct C as [C|C].
+      + apply seqb_eq in C. rewrite <- C in Er. vm_compute in Er. discriminate.
+      + apply under_spec in C. destruct C as [r' Er']. rewrite Er' in Er. vm_compute in Er. discriminate.
+  Qed.
+
+  Lemma wrun_live p : forall s h, SP o h p -> Hsound h -> Ilive s ->
+    Ilive (snd (wrun st (iexec e clk fs) p s h)).
+  Proof.
+    induction p as [r|act kont IH]; intros s h HS Hh HI; cbn [wrun]; [exact HI|].
+    inversion HS as [|? ? ? Hd Hst Hk']; subst.
+    destruct (iexec e clk fs act s) as [x s1] eqn:Ex.
+    destruct (iexec_spec e clk fs _ _ _ _ Ex) as (_ & Hlist).
+    unfold iexec in Ex. set (s' := if logs act then interfere fs s else s) in Ex.
+    assert (HI' : Ilive s').
+    { subst s'. destruct (logs act); [|exact HI]. intros q Hq. unfold interfere. cbn [sto].
+      rewrite (apply_at_prot fs _ Hfs _ q Hq). exact (HI q Hq). }
+    clearbody s'.
+    apply IH; [apply Hk'| |].
+    - (* the history stays sound *)
+      destruct Hh as (Hh & Hld & Hnw & Hls & Hsd). repeat split.
+      + intros p ks [E|Hin]; [|exact (Hh p ks Hin)]. injection E; intros -> ->. exact (Hlist p ks eq_refl eq_refl).
+      + intros v' c' [E|Hin]; [|exact (Hld v' c' Hin)]. injection E; intros -> ->. cbn [exec] in Ex.
+        destruct (do_load e a s') as [r s2] eqn:D. injection Ex; intros _ ->.
+        destruct (do_load_spec _ _ _ _ _ D) as (_ & Hok & _). pose proof (Hok v' c' eq_refl) as L.
+        rewrite (HI' a prot_a), Hf in L. injection L; intros _ _. congruence.
+      + intros t [E|Hin]; [|exact (Hnw t Hin)]. injection E; intros -> ->. cbn [exec] in Ex.
+        injection Ex; intros _ <-. eexists; reflexivity.
+      + intros p ks q [E|Hin] Hq Ch Hp; [|exact (Hls p ks q Hin Hq Ch Hp)]. injection E; intros -> ->. cbn [exec] in Ex.
+        destruct (do_list e p s') as [r s2] eqn:D. injection Ex; intros _ ->.
+        destruct (do_list_spec _ _ _ _ _ D) as (_ & Hl). pose proof (Hl ks eq_refl) as L.
+        assert (Pp : prot p).
+        { right. destruct Hq as [->|[-> _]]; [|exact (same_folder p Ch)].
+          destruct Ch as [ca [-> _]]. unfold covers. apply orb_true_iff. right. apply under_spec. eauto. }
+        assert (Pq : prot q) by (destruct Hq as [->|[-> _]]; [exact prot_a | left; reflexivity]).
+        assert (Lq : exists n, lookup (sto s') q = Some n).
+        { rewrite (HI' q Pq). destruct Hq as [->|[-> Hn]]; [rewrite Hf; eauto|].
+          destruct (lookup s0 k) as [n|]; [eauto | contradiction]. }
+        destruct Lq as [n Lq].
+        assert (Hp' : forall v'' c'', lookup (sto s') p <> Some (File v'' c'')) by (rewrite (HI' p Pp); exact Hp).
+        destruct (list_pure_complete (lfe e) (sto s') p q n Lq Ch Hp') as [ks' [L' Hin']].
+        rewrite L in L'. injection L'; intros <-. exact Hin'.
+      + intros p [E|Hin] C; [|exact (Hsd p Hin C)]. injection E; intros -> ->. cbn [exec] in Ex.
+        destruct (do_stat e p s') as [r s2] eqn:D. injection Ex; intros _ ->.
+        destruct (do_stat_spec _ _ _ _ _ D) as (_ & Hdir). intros v'' c''.
+        rewrite <- (HI' p (or_intror C)). exact (Hdir eq_refl v'' c'').
+    - (* the protected keys keep their nodes *)
+      destruct act as [k0|k0|k0|k0|k0 n| |]; cbn [exec] in Ex.
+      + destruct (do_load e k0 s') as [r s2] eqn:D. injection Ex; intros <- _.
+        intros q Hq. rewrite (proj1 (do_load_spec _ _ _ _ _ D)). exact (HI' q Hq).
+      + destruct (do_list e k0 s') as [r s2] eqn:D. injection Ex; intros <- _.
+        intros q Hq. rewrite (proj1 (do_list_spec _ _ _ _ _ D)). exact (HI' q Hq).
+      + destruct (do_stat e k0 s') as [r s2] eqn:D. injection Ex; intros <- _.
+        intros q Hq. rewrite (proj1 (do_stat_spec _ _ _ _ _ D)). exact (HI' q Hq).
+      + destruct (do_delete e k0 s') as [r s2] eqn:D. injection Ex; intros <- _.
+        intros q Hq. destruct (do_delete_spec _ _ _ _ _ D) as [-> | ->]; [exact (HI' q Hq)|].
+        destruct (warranted_spares h k0 Hh (Hd k0 eq_refl)) as [Na Nk].
+        rewrite lookup_remove. destruct (covers k0 q) eqn:C; [|exact (HI' q Hq)].
+        destruct Hq as [->|Hq].
+        * destruct Nk as [Nk|Nk]; [congruence | symmetry; exact Nk].
+        * rewrite (covers_trans _ _ _ C Hq) in Na. discriminate.
+      + destruct (do_store e k0 n s') as [r s2] eqn:D. injection Ex; intros <- _.
+        intros q Hq. destruct (do_store_spec _ _ _ _ _ _ D) as [(_ & -> & _)|(-> & _ & _)]; [exact (HI' q Hq)|].
+        rewrite lookup_put, (Hst k0 n eq_refl).
+        destruct consts_ok as (_ & _ & _ & _ & _ & _ & _ & -> & _).
+        rewrite (prot_not_record q Hq). exact (HI' q Hq).
+      + injection Ex; intros <- _. exact HI'.
+      + injection Ex; intros <- _. exact HI'.
+  Qed.
+
+  (** the asset keeps its node *)
+  Theorem cleani_live_frame : lookup (sto (snd (cleani e fs o clk s0))) k = lookup s0 k.
+  Proof.
+    unfold cleani, do_lock. destruct (faulty e (St s0 [])); [reflexivity|]. cbn [logged].
+    assert (H0 : Hsound []).
+    { repeat split; try (intros; contradiction). intros p ks []. }
+    match goal with |- context [runi e clk fs ?p ?sx] =>
+      pose proof (runi_wrun e clk fs p sx []) as R;
+      pose proof (wrun_live p sx [] (clean_locked_safe o []) H0 (fun q _ => eq_refl)) as F;
+      destruct (runi e clk fs p sx) as [r s2] end.
+    cbn [snd] in *. unfold do_unlock. cbn [sto logged]. rewrite R. exact (F k (or_introl eq_refl)).
+  Qed.
+End LiveFrame.
